@@ -23,7 +23,7 @@ from xmlschema.aliases import ComponentClassType, ElementType, \
     AtomicValueType, SchemaType, DecodedValueType, NsmapType
 from xmlschema.exceptions import XMLSchemaValueError
 from xmlschema.translation import gettext as _
-from xmlschema.utils.decoding import EmptyType
+from xmlschema.utils.decoding import EmptyType, strictly_equal
 from xmlschema.utils.qnames import get_namespace, get_qname
 
 from .exceptions import XMLSchemaCircularityError
@@ -255,9 +255,9 @@ class XsdAttribute(XsdComponent, ValidationMixin[Optional[str], DecodedValueType
         if self.fixed is not None:
             if obj is None:
                 obj = self.fixed
-            elif obj != self.fixed and \
-                    self.type.text_decode(obj, context=context) != \
-                    self.type.text_decode(self.fixed):
+            elif obj != self.fixed and not strictly_equal(
+                    self.type.text_decode(obj, context=context),
+                    self.type.text_decode(self.fixed)):
                 msg = _("attribute {0!r} has a fixed value {1!r}").format(self.name, self.fixed)
                 context.validation_error(validation, self, msg, obj)
 
@@ -296,7 +296,8 @@ class XsdAttribute(XsdComponent, ValidationMixin[Optional[str], DecodedValueType
     def raw_encode(self, obj: Any, validation: str, context: EncodeContext) -> Optional[str]:
         value = self.type.raw_encode(obj, validation, context)
         if self.fixed is not None and value is not None and value != self.fixed and \
-                self.type.text_decode(value) != self.type.text_decode(self.fixed):
+                not strictly_equal(self.type.text_decode(value),
+                                   self.type.text_decode(self.fixed)):
             msg = _("attribute {0!r} has a fixed value {1!r}").format(self.name, self.fixed)
             context.validation_error(validation, self, msg, obj)
         return value
